@@ -39,6 +39,12 @@ Proof.
   apply andb_true_iff in H as [He Hl]. rewrite He in Hq. discriminate.
 Qed.
 
+Lemma flat_map_ext_in' {A B} (f g : A -> list B) l : (forall a, In a l -> f a = g a) -> flat_map f l = flat_map g l.
+Proof.
+  induction l as [|a l IH]; intros H; [reflexivity|]. cbn [flat_map].
+  rewrite (H a (or_introl eq_refl)), IH; [reflexivity|]. intros b Hb. apply H. right. exact Hb.
+Qed.
+
 Ltac loud H := exfalso; unfold quiet in H; cbn in H; discriminate H.
 
 (** * Values *)
@@ -136,13 +142,122 @@ Section ValuesQ.
     - rewrite (loc_type_nonvar d v Ev) in H. apply check_value_quiet, H.
   Qed.
 
+  (** ** Every variable of an accepted literal is at a typed position or inside a custom scalar literal:
+      the two readings of "the variable uses of a value" coincide *)
+  Definition obj_uses' (deep : bool) (defs : list inputvaldef) (custom : bool) (fs : list (ident * value)) : list var_use :=
+    flat_map (fun kv => match find (fun d => str_eqb (iname (iv_name d)) (iname (fst kv))) defs with
+                        | Some d => var_uses deep S (snd kv) (Some (iv_type d))
+                                      (match iv_default d with Some _ => true | None => false end)
+                        | None => if deep || custom then var_uses true S (snd kv) None false else []
+                        end) fs.
+
+  Lemma obj_uses_unfold' deep p fs t ld :
+    var_uses deep S (VObject p fs) (Some t) ld = obj_uses' deep (input_defs S t) (custom_scalar S (unwrap_lists t)) fs.
+  Proof.
+    cbn [var_uses]. fold (input_defs S t). generalize (input_defs S t) as defs, (custom_scalar S (unwrap_lists t)) as c.
+    intros defs c. unfold obj_uses'. induction fs as [|[k fv] r IH]; [reflexivity|].
+    cbn [flat_map fst snd]. rewrite <- IH. reflexivity.
+  Qed.
+
+  Lemma list_uses_unfold' deep p vs t ld :
+    var_uses deep S (VList p vs) (Some t) ld =
+    match strip_nonnull t with
+    | TList _ i => flat_map (fun e => var_uses deep S e (Some i) false) vs
+    | t' => if deep || custom_scalar S t' then flat_map (fun e => var_uses true S e None false) vs else []
+    end.
+  Proof.
+    cbn [var_uses]. destruct (strip_nonnull t) as [n|i|q i]; try reflexivity;
+      destruct deep, (custom_scalar S _); reflexivity.
+  Qed.
+
+  Lemma builtin_rejects_compound name v :
+    is_builtin_scalar name = true -> (match v with VList _ _ | VObject _ _ => True | _ => False end) ->
+    scalar_accepts name v = false.
+  Proof.
+    unfold is_builtin_scalar, scalar_accepts. intros H Hv.
+    destruct (str_eqb name str_Boolean), (str_eqb name str_Int), (str_eqb name str_Float), (str_eqb name str_String),
+             (str_eqb name str_ID); try discriminate H; destruct v; try contradiction; reflexivity.
+  Qed.
+
+  (** a list or object literal accepted at a named type: the type is a custom scalar or (object) an input object *)
+  Lemma named_compound v n :
+    (match v with VList _ _ | VObject _ _ => True | _ => False end) ->
+    quiet (check_named S vars (check_value S vars) v (TNamed n) n) ->
+    custom_scalar S (TNamed n) = true
+    \/ exists d p name dirs fields kw fs q, sp_type S (iname n) = Some (TDInput d p name dirs fields kw) /\ v = VObject q fs.
+  Proof.
+    intros Hv H. unfold check_named in H. unfold custom_scalar. rewrite get_type_sp in H.
+    destruct (sp_type S (iname n)) as [td|] eqn:Eg; [|loud H].
+    destruct td as [d p name dirs kw|d p name impls dirs fs' kw|d p name impls dirs fs' kw|d p name dirs mem' kw
+                   |d p name dirs vals kw|d p name dirs fields kw]; cbn zeta in H; try (loud H).
+    - left. rewrite <- builtin_agree. destruct (is_builtin_scalar (iname name)) eqn:Eb; [|reflexivity].
+      rewrite (builtin_rejects_compound _ _ Eb Hv) in H. loud H.
+    - destruct v; try contradiction; loud H.
+    - destruct v as [| | | | | | | |q fs]; try contradiction; [loud H|]. right. repeat eexists.
+  Qed.
+
+  Theorem check_value_deep : forall v t, quiet (check_value S vars v t) ->
+    forall ld, var_uses true S v (Some t) ld = var_uses false S v (Some t) ld.
+  Proof.
+    induction v as [n p|p l|p l|p l|p b|p|p l|p vs IHvs|p fs IHfs] using value_ind'; intros t H ld; try reflexivity.
+    - (* list *)
+      rewrite Forall_forall in IHvs. rewrite !list_uses_unfold'. cbn [orb].
+      induction t as [n|i IHt|q i IHt].
+      + rewrite cv_named in H by reflexivity. cbn [strip_nonnull].
+        destruct (named_compound (VList p vs) n I H) as [Hc|[d [p0 [name [dirs [fields [kw [fs [q [_ E]]]]]]]]]]; [|discriminate E].
+        rewrite Hc. reflexivity.
+      + rewrite cv_nonnull in H by reflexivity. cbn [strip_nonnull]. apply IHt, H.
+      + rewrite cv_list in H by reflexivity. cbn [strip_nonnull].
+        apply flat_map_ext_in'. intros e He. apply IHvs; [exact He|]. apply (quiet_flat_map _ _ H e He).
+    - (* object *)
+      rewrite !obj_uses_unfold'.
+      induction t as [n|i IHt|q i IHt].
+      + rewrite cv_named in H by reflexivity. cbn [unwrap_lists].
+        destruct (named_compound (VObject p fs) n I H) as [Hc|[d [p0 [name [dirs [fields [kw [fs' [q [Eg E]]]]]]]]]].
+        * rewrite Hc. unfold input_defs. cbn [unwrap_lists]. unfold custom_scalar in Hc.
+          destruct (sp_type S (iname n)) as [td|]; [|discriminate]. destruct td; try discriminate.
+          unfold obj_uses'. apply flat_map_ext_in'. intros kv _. reflexivity.
+        * injection E as <- <-. unfold input_defs. cbn [unwrap_lists]. rewrite Eg.
+          unfold check_named in H. rewrite get_type_sp, Eg in H. cbn zeta in H.
+          unfold input_object_check in H. cbn zeta in H.
+          pose proof (io_fold (check_value S vars) fs fields (mkIo [] true [] 0)) as [F1 [F2 F3]].
+          cbn zeta in F1, F2, F3. cbn [io_errs io_res io_seen app andb Nat.add] in F1, F2, F3.
+          apply quiet_app in H as [He Hr]. rewrite F1 in He. rewrite F2, F3 in Hr.
+          destruct (forallb (ef_ok fs) fields) eqn:Eok; [|loud Hr].
+          destruct (Nat.ltb (sumc (map (fun ef => iname (iv_name ef)) fields) (keys fs)) (length fs)) eqn:Elt; [loud Hr|].
+          apply Nat.ltb_ge in Elt. rewrite <- get_type_sp in Eg.
+          pose proof (wf_input S _ _ _ _ _ _ _ Hwf Eg) as Hnd.
+          assert (Hdef : forall k, In k (keys fs) -> In k (map (fun d0 => iname (iv_name d0)) fields)).
+          { apply (sumc_all_defined _ _ Hnd). unfold keys at 1. rewrite map_length. exact Elt. }
+          unfold obj_uses'. apply flat_map_ext_in'. intros [k v] Hin. cbn [fst snd].
+          assert (Hk : In (iname k) (keys fs)) by (unfold keys; apply in_map_iff; exists (k, v); auto).
+          destruct (find_by_name fields (iname k) (Hdef _ Hk)) as [dd [Hf [Hdin Hdn]]]. rewrite Hf.
+          pose proof (quiet_flat_map _ _ He dd Hdin) as Hee. cbn beta in Hee.
+          assert (Hcv : quiet (check_value S vars v (loc_type dd v))).
+          { apply (quiet_concat _ Hee). unfold ef_vals. apply filter_vals_In. exists k, v. auto. }
+          destruct (is_var v) eqn:Evar.
+          -- destruct v; try discriminate Evar. reflexivity.
+          -- rewrite (loc_type_nonvar dd v Evar) in Hcv. rewrite Forall_forall in IHfs. apply (IHfs (k, v) Hin _ Hcv).
+      + rewrite cv_nonnull in H by reflexivity. apply IHt, H.
+      + rewrite cv_list in H by reflexivity. apply IHt, H.
+  Qed.
+
+  Lemma value_at_location_deep d v ld : quiet (check_value S vars v (loc_type d v)) ->
+    var_uses true S v (Some (iv_type d)) ld = var_uses false S v (Some (iv_type d)) ld.
+  Proof.
+    intros H. destruct (is_var v) eqn:Ev.
+    - destruct v; try discriminate Ev. reflexivity.
+    - rewrite (loc_type_nonvar d v Ev) in H. apply check_value_deep, H.
+  Qed.
+
   (** * Arguments *)
   Theorem check_arguments_quiet ppos pname kind args defs :
     NoDup (def_names defs) ->
     quiet (check_arguments S vars ppos pname kind args defs) ->
     args_defined_ok (provided args, defs) = true
     /\ required_args_ok (provided args, defs) = true
-    /\ literal_types_vis S (provided args, defs) = true.
+    /\ literal_types_vis S (provided args, defs) = true
+    /\ args_var_uses true S (provided args) defs = args_var_uses false S (provided args) defs.
   Proof.
     intros Hnd H. unfold check_arguments in H.
     assert (Hmain : forall apos,
@@ -153,7 +268,8 @@ Section ValuesQ.
                   else [])) ->
       args_defined_ok (provided args, defs) = true
       /\ required_args_ok (provided args, defs) = true
-      /\ literal_types_vis S (provided args, defs) = true).
+      /\ literal_types_vis S (provided args, defs) = true
+      /\ args_var_uses true S (provided args) defs = args_var_uses false S (provided args) defs).
     { clear H. intros apos H. cbn zeta in H. rewrite arg_fold in H. cbn [fst snd app Nat.add] in H.
       apply quiet_app in H as [He Hx].
       assert (Hdefined : forall kv, In kv (provided args) -> mem (iname (fst kv)) (def_names defs) = true).
@@ -190,7 +306,11 @@ Section ValuesQ.
       - unfold literal_types_vis, literal_types_ok. cbn [fst snd]. apply forallb_forall. intros kv Hin.
         destruct (find (fun d0 => str_eqb (iname (iv_name d0)) (iname (fst kv))) defs) as [d|] eqn:Ef; [|reflexivity].
         apply find_some in Ef as [Hd Hn]. apply str_eqb_eq in Hn.
-        apply (value_at_location_quiet d (snd kv)). apply (proj1 (Hper d Hd) kv Hin Hn). }
+        apply (value_at_location_quiet d (snd kv)). apply (proj1 (Hper d Hd) kv Hin Hn).
+      - unfold args_var_uses. apply flat_map_ext_in'. intros kv Hin.
+        pose proof (Hdefined kv Hin) as Hm. apply mem_In in Hm.
+        destruct (find_by_name defs (iname (fst kv)) Hm) as [d [Hf [Hd Hn]]]. rewrite Hf.
+        apply (value_at_location_deep d (snd kv)). apply (proj1 (Hper d Hd) kv Hin Hn). }
     destruct args as [a|]; destruct defs as [|d0 defs0].
     - loud H.
     - apply (Hmain (args_pos a)). exact H.
@@ -200,8 +320,11 @@ Section ValuesQ.
 End ValuesQ.
 
 (** * Directives *)
+(** the site rules hold, the site is no cycle marker, and every variable written at the site is at a typed position
+    or inside a custom scalar literal (the two readings of "variable uses" coincide) *)
 Definition site_rules_good (S : tsdoc) (D : opdoc) (x : site) : Prop :=
-  (forall r, site_ok true S D r x = true) /\ (forall n, x <> StCycle n).
+  (forall r, site_ok true S D r x = true) /\ (forall n, x <> StCycle n)
+  /\ site_var_uses true S x = site_var_uses false S x.
 
 Section DirsQ.
   Variable S : tsdoc.
@@ -216,7 +339,9 @@ Section DirsQ.
          /\ mem loc (names_of (dd_locs dd)) = true
          /\ args_defined_ok (provided (dir_args d), dir_argdefs dd) = true
          /\ required_args_ok (provided (dir_args d), dir_argdefs dd) = true
-         /\ literal_types_vis S (provided (dir_args d), dir_argdefs dd) = true)
+         /\ literal_types_vis S (provided (dir_args d), dir_argdefs dd) = true
+         /\ args_var_uses true S (provided (dir_args d)) (dir_argdefs dd)
+            = args_var_uses false S (provided (dir_args d)) (dir_argdefs dd))
     /\ nodup_str (nonrep S ds) = true
     /\ (forall n, In n (nonrep S ds) -> mem n seen = false).
   Proof.
@@ -261,14 +386,16 @@ Section DirsQ.
   Proof.
     intros H. unfold check_directives in H.
     destruct (check_directives_from_quiet loc ds [] H) as [Ha [Hb _]].
-    split; [|intros n; discriminate].
+    split; [|split; [intros n; discriminate|]].
+    2:{ cbn [site_var_uses]. apply flat_map_ext_in'. intros d Hd.
+        destruct (Ha d Hd) as [dd [E [_ [_ [_ [_ H1]]]]]]. rewrite E. exact H1. }
     intros r. destruct r; try reflexivity; cbn [site_ok arg_sites].
     - apply forallb_forall. intros a Hin. apply in_flat_map in Hin as [d [Hd Hin]].
       destruct (Ha d Hd) as [dd [E [_ [H1 _]]]]. rewrite E in Hin. destruct Hin as [<-|[]]. exact H1.
     - apply forallb_forall. intros a Hin. apply in_flat_map in Hin as [d [Hd Hin]].
       destruct (Ha d Hd) as [dd [E [_ [_ [H1 _]]]]]. rewrite E in Hin. destruct Hin as [<-|[]]. exact H1.
     - apply forallb_forall. intros a Hin. apply in_flat_map in Hin as [d [Hd Hin]].
-      destruct (Ha d Hd) as [dd [E [_ [_ [_ H1]]]]]. rewrite E in Hin. destruct Hin as [<-|[]]. exact H1.
+      destruct (Ha d Hd) as [dd [E [_ [_ [_ [H1 _]]]]]]. rewrite E in Hin. destruct Hin as [<-|[]]. exact H1.
     - apply forallb_forall. intros d Hd. destruct (Ha d Hd) as [dd [E _]]. rewrite E. reflexivity.
     - apply forallb_forall. intros d Hd. destruct (Ha d Hd) as [dd [E [H1 _]]]. rewrite E. exact H1.
     - exact Hb.
@@ -326,8 +453,9 @@ Section WalkQ.
     assert (Hcomp : is_composite root = true) by (apply direct_fields_composite; eauto).
     pose proof (direct_fields_sp root fields (iname name) Hdf) as Hsp. rewrite Hfind in Hsp.
     destruct (wf_field_args_both S root fields tf Hwf Hin Hdf (proj1 (find_some _ _ Hfind))) as [Hnd Hty].
-    destruct (check_arguments_quiet S vars Hwf _ _ _ _ _ Hnd Hargs) as [A1 [A2 A3]].
-    split; [|intros n; discriminate].
+    destruct (check_arguments_quiet S vars Hwf _ _ _ _ _ Hnd Hargs) as [A1 [A2 [A3 A4]]].
+    split; [|split; [intros n; discriminate|]].
+    2:{ cbn [site_var_uses]. rewrite <- Hsp. exact A4. }
     intros r. destruct r; try reflexivity; cbn [site_ok arg_sites]; rewrite <- ?Hsp.
     - rewrite Hcomp. reflexivity.
     - rewrite Hcomp. rewrite <- get_type_sp, Ht. rewrite Hleaf. destruct sel; reflexivity.
@@ -378,7 +506,7 @@ Section WalkQ.
       destruct (spread_match_sound S p root cond Hroot (get_type_In _ _ _ Econd) Hcomp Hm) as [Happ Hsnd].
       rewrite Hsnd in Hcont.
       cbn [vsites_sel]. constructor; [|constructor].
-      + split; [|intros n; discriminate].
+      + split; [|split; [intros n; discriminate | reflexivity]].
         intros r. destruct r; try reflexivity; cbn [site_ok]; rewrite Efg; [reflexivity|].
         rewrite <- get_type_sp, Econd. exact Happ.
       + apply (dirs_quiet S D vars Hwf). exact Hd.
@@ -397,7 +525,7 @@ Section WalkQ.
         destruct (spread_match_sound S p root cond Hroot (get_type_In _ _ _ Econd) Hcomp Hm) as [Happ Hsnd].
         rewrite Hsnd in Hcont. rewrite <- get_type_sp, Econd.
         constructor; [|constructor].
-        * split; [|intros n; discriminate].
+        * split; [|split; [intros n; discriminate | reflexivity]].
           intros r. destruct r; try reflexivity; cbn [site_ok]; rewrite <- get_type_sp, Econd; [|exact Happ].
           apply (css_composite_q _ _ _ _ Hcont).
         * apply (dirs_quiet S D vars Hwf). exact Hd.
